@@ -149,7 +149,7 @@ func checkC04(c *Ctx, r *Report) {
 	gotDone := map[string]int{}
 	var doneFns []*ssa.Function
 	for _, f := range c.FnsOfPkg(swarmP) {
-		root := fnKey(c.Root(f))
+		root := fnKey(c.PinnedRoot(f))
 		for _, in := range findInstrs(f, func(in ssa.Instruction) bool { return isRefs(in, "Add") }) {
 			k, ok := constInt(in.(ssa.CallInstruction).Common().Args[1])
 			if !ok {
